@@ -14,7 +14,7 @@ class Unsupported(Exception):
 
 
 class Sim:
-    def __init__(self, prog, f, obj_param_id, size):
+    def __init__(self, prog, f, obj_param_id, size, bind=None, sinks=()):
         self.prog, self.f = prog, f
         self.obj = obj_param_id            # the reference parameter whose bytes are shuffled
         self.size = size
@@ -25,6 +25,9 @@ class Sim:
         self.out = None                    # cells written back into the object
         self.loaded = False
         self.steps = 0
+        self.bind = bind                   # callable(expr) -> int or None: members with a fixed value (byte-order selector)
+        self.sinks = set(sinks)            # member functions that consume (ptr, n): their cells are recorded
+        self.written = []                  # one list of cells per sink call
 
     def tick(self):
         self.steps += 1
@@ -93,8 +96,16 @@ class Sim:
         cv = const_val(e)
         if cv is not None:
             return cv
+        if self.bind is not None:
+            b_ = self.bind(strip_lv(e))
+            if b_ is not None:
+                return b_
         e = strip(e)
         k = e.get('k')
+        if self.bind is not None and k in ('mem', 'call'):
+            b_ = self.bind(e)
+            if b_ is not None:
+                return b_
         if k == 'int':
             return e['v']
         if k == 'sizeof' and 'cv' in e:
@@ -252,6 +263,11 @@ class Sim:
         if k == 'bin' and e.get('op') == ',':
             self.expr(e['x'])
             self.expr(e['y'])
+            return
+        if k == 'call' and (e.get('fn') or e.get('pq') or '').split('::')[-1] in self.sinks and len(e.get('a', [])) == 2:
+            a, i = self.ptr(e['a'][0])
+            n = self.int_(e['a'][1])
+            self.written.append([self.load((a, i + j)) for j in range(n)])
             return
         if k == 'call' and (e.get('fn') or '').split('::')[-1] == 'swap' and len(e.get('a', [])) == 2:
             l1, l2 = self.loc(e['a'][0]), self.loc(e['a'][1])
